@@ -31,6 +31,19 @@ func C01(c *Ctx) int {
 	if err := c.TokenGameRound(fs, gen.OtherWriterShapes("and"), RoundOpts{Label: "other-writer", MaxSteps: 8}); err != nil {
 		c.Infraf("%v", err)
 	}
+	// gateways of each kind re-entered through a loop, default flow at every position (the same
+	// token passes the same gateway again after having taken the default / a conditional flow)
+	{
+		var re []*prog.Program
+		for _, kind := range []string{"xor", "or"} {
+			for dpos := 0; dpos <= 2; dpos++ {
+				re = append(re, gen.GatewayTableLoop(kind, 2, dpos, 1, -1, true))
+			}
+		}
+		if err := c.TokenGameRound(fs, re, RoundOpts{Label: "reentry", MaxSteps: 16, Simulate: 240, MaxPerProg: 30}); err != nil {
+			c.Infraf("%v", err)
+		}
+	}
 	// level M: the generated programs made only of tasks, exclusive and parallel gateways (no loop:
 	// the flow bound) go through Engine.tla as well: every goroutine interleaving against the game
 	{
